@@ -11,6 +11,7 @@ import numpy as np
 from .. import install, refs, gen, reach
 from ..install import ctx as _ctx
 
+REPO_TESTS_UNDER_CONTRACTS = True
 RULE = ('cases = (data kind incl. integer dtypes, real/complex, N in 4..200, order in 1..min(N-2,30), '
         'criterion in {None, AIC, AICc, KIC, FPE, AKICc, MDL}, container); non-trivial when order >= 2; '
         'distinct = distinct descriptor')
